@@ -153,6 +153,61 @@ theorem merge_cell_none_none (f f2 fx : Flags) (mx : List Meta) (v : Bytes) :
 
 end cells
 
+/-! ## the cells for a leaf-list instance (system-ordered: no `replace`; the instance is identified by its value) -/
+
+theorem isTerm_of_leaflist {S : Schema} {s : Nat} (hll : S.isKind s .leaflist = true) : S.isTerm s = true := by
+  have := isKind_iff.mp hll
+  simp [Schema.isTerm, Schema.isKind, this]
+
+theorem isLeaf_of_leaflist {S : Schema} {s : Nat} (hll : S.isKind s .leaflist = true) : S.isKind s .leaf = false := by
+  have := isKind_iff.mp hll
+  simp [Schema.isKind, this]
+
+section cellsLL
+variable {S : Schema} {o : MergeOpts} {s : Nat} (hll : S.isKind s .leaflist = true) (h1 : S.isUserOrd s = false)
+  (h2 : S.isDupInst s = false)
+include hll h1 h2
+
+/-- leaf-list instance: `create` then `delete` -/
+theorem merge_cell_ll_create_delete (f f2 : Flags) (v : Bytes) (hf : f2.dflt = f.dflt) :
+    cellEff S o .delete (nCreate s f v) .create (nDelete s f2 v) none = seqEff S (nCreate s f v) (nDelete s f2 v) none := by
+  have h3 := isTerm_of_leaflist hll
+  have h4 := isKind_iff.mp hll
+  have h5 := isLeaf_of_leaflist hll
+  cell_simp h1 h2 h3 h4 [hf, h5] <;> (cases hq : f.dflt <;> simp_all)
+
+theorem merge_cell_ll_create_none (f f2 : Flags) (v : Bytes) :
+    cellEff S o .none (nCreate s f v) .create (nNone s f2 v f.dflt) none = seqEff S (nCreate s f v) (nNone s f2 v f.dflt) none := by
+  have h3 := isTerm_of_leaflist hll
+  have h4 := isKind_iff.mp hll
+  have h5 := isLeaf_of_leaflist hll
+  cell_simp h1 h2 h3 h4 [h5]
+
+theorem merge_cell_ll_delete_create (f f2 fx : Flags) (mx : List Meta) (v : Bytes) (hfx : fx.dflt = f.dflt) :
+    cellEff S o .create (nDelete s f v) .delete (nCreate s f2 v) (some (.term s fx mx v)) =
+      seqEff S (nDelete s f v) (nCreate s f2 v) (some (.term s fx mx v)) := by
+  have h3 := isTerm_of_leaflist hll
+  have h4 := isKind_iff.mp hll
+  have h5 := isLeaf_of_leaflist hll
+  cases hd1 : f.dflt <;> cases hd2 : f2.dflt <;> cell_simp h1 h2 h3 h4 [h5, hfx, hd1, hd2] <;> simp_all
+
+theorem merge_cell_ll_none_delete (f f2 fx : Flags) (mx : List Meta) (v : Bytes) :
+    cellEff S o .delete (nNone s f v fx.dflt) .none (nDelete s f2 v) (some (.term s fx mx v)) =
+      seqEff S (nNone s f v fx.dflt) (nDelete s f2 v) (some (.term s fx mx v)) := by
+  have h3 := isTerm_of_leaflist hll
+  have h4 := isKind_iff.mp hll
+  have h5 := isLeaf_of_leaflist hll
+  cell_simp h1 h2 h3 h4 [h5]
+
+theorem merge_cell_ll_none_none (f f2 fx : Flags) (mx : List Meta) (v : Bytes) :
+    cellEff S o .none (nNone s f v fx.dflt) .none (nNone s f2 v f.dflt) (some (.term s fx mx v)) =
+      seqEff S (nNone s f v fx.dflt) (nNone s f2 v f.dflt) (some (.term s fx mx v)) := by
+  have h3 := isTerm_of_leaflist hll
+  have h4 := isKind_iff.mp hll
+  have h5 := isLeaf_of_leaflist hll
+  cases hd1 : fx.dflt <;> cases hd2 : f2.dflt <;> cell_simp h1 h2 h3 h4 [h5, hd1, hd2]
+end cellsLL
+
 /-! ## a change undone by the second diff disappears (`lyd_diff_is_redundant`) -/
 
 theorem merge_cancel_leaf {S : Schema} {o : MergeOpts} {s : Nat} (hleaf : S.isKind s .leaf = true) (f f2 : Flags)
@@ -523,27 +578,14 @@ example : ∃ C', mergeApply mcS true {} mcA mcB mcB = .ok C' ∧ dataEqL true C
   merge_apply_second_empty mcS {} {} mcA mcB (by decide +kernel) (by decide +kernel)
     (keysDistinguished_of_check _ _ (by decide +kernel))
 
--- OPEN: `merge_apply_partial` — for good trees and exact diffs `D1` (for `A`, leading to `B`) and `D2` (for `B`, leading to `C`):
---   ∃ M C', mergeDiff o S D1 D2 = .ok M ∧ apply S A M fx = .ok C' ∧ dataEqL true C' C = true.
---   (`merge_cancel` at tree level and the triples `A → A → C`, `A → B → B`, `A → B → A` are proved: above.)
---   Hypotheses the tree statement needs, cell by cell (read off the leaf-cell theorems above): (delete, create) —
---   `o.defaults = true → Generated.Diff13.mergeDfltNeedsDeletedDflt = true` (finding F18(b)); (none, replace) — the value the
---   second diff sets is not default-flagged (`hnd` of `merge_cell_none_replace`: true for validated data, where a leaf that carries
---   the flag has its one schema default value; NOT implied by `goodT` / `wfForest`, which allow the flag on any value — over those
---   trees the statement needs this as an extra hypothesis on `C`); all other accepted cells: none.  The six rejected cells are
---   unreachable (`merge_rejected_unreachable`).  The order hypothesis is no obstacle any more: `merge_cell_apply_on` needs
---   `K13.KeyOrderOn S P`, which holds for `P = K13.keyedOK S` (Props/C13 `keyOrderOn_keyed`), keyed lists included.
---   Proved: every leaf cell (`merge_cell_*`, `merge_cancel_leaf`), the link to `applyNode` (`merge_cell_apply`), the
---   unreachability of the rejected cells, the agreement of the table with the source (Props/C13.lean), and that computed diffs
---   meet the hypotheses (`diff_chain_exact`), and the whole recursion of `mergeR` for the pairs (node, reversed node)
---   (`merge_cancel`: Diff/LemmasCancel.lean has the machinery — `mergeStep_cancel`, `mergeKids_cancel_map`, the created / deleted
---   subtrees with inherited operations `del_cancel` / `cre_cancel`).  Not proved: the recursion of `mergeR` through the sibling list and through inner
---   nodes — (i) a forward specification of `apply` for exact diffs (the result as a function of the per-instance effects, so that
---   the order of the diff nodes and `insertBySchema` / `placeBack` do not matter; `Lemmas13Rev.listRev` has it only implicitly),
---   (ii) the cells for nodes whose operation is INHERITED (children of created / deleted subtrees: `mergeDelete` / `mergeCreate`
---   make the operation of the children explicit first), (iii) leaf-list and container cells.  Evidence instead: `merge3` agrees
---   with lyd_diff_merge_all token for token, and the law holds on the implementation for every generated triple outside the F18
---   cells, including all 7 844 option × triple combinations of the exhaustive tiny state spaces (tools/checks/c13.py).
+-- The tree-level law `merge_apply_partial` is PROVED in Props/C13Tree.lean (`merge_apply_partial_tree`): the recursion of `mergeR`
+--   through the sibling lists and through inner nodes (Diff/K13Merge.lean, K13MergeTree.lean), on top of (i) a forward specification
+--   of `apply` for exact diffs (Diff/K13Fwd.lean: the result instance by instance, so that the order of the diff nodes and
+--   `insertBySchema` / `placeBack` do not matter), (ii) the cells for nodes whose operation is INHERITED (children of created /
+--   deleted subtrees), (iii) the leaf-list cells above and all five accepted cells for container / list-instance nodes.  The
+--   hypotheses read off the leaf-cell theorems are the ones of that theorem: (delete, create) — `o.defaults = true →
+--   Generated.Diff13.mergeDfltNeedsDeletedDflt = true` (finding F18(b)); (none, replace) — the value the second diff sets is not
+--   default-flagged (part of the decidable side condition `mergeSafe`).
 
 /-! ### the hypotheses of the cell theorems are satisfiable and the effects are not trivial -/
 
